@@ -1,7 +1,7 @@
 (** C12 — Parsing is independent of line endings, blank padding and read chunking.  Pinned statements only;
     proofs in Proofs/ReaderFacts.v and Proofs/SectionsFacts.v. *)
 Require Import CF.Proofs.Tac CF.Model.Text CF.Model.Records CF.Model.Reader CF.Model.Sections CF.Proofs.SectionsFacts CF.Proofs.ReaderFacts
-  CF.Proofs.FileFacts CF.Proofs.EolFacts.
+  CF.Proofs.FileFacts CF.Proofs.EolFacts CF.Model.Machine CF.Proofs.EncFacts CF.Proofs.Examples.
 
 (** Chunking: for every schedule of chunks (and transient interrupts) without a hard failure, the stream
     of line reads - on which every parsed line, section, error and machine depends - is the one of the flat
@@ -43,7 +43,52 @@ Theorem C12_final_newline : forall eol init last, eol = [LF] \/ eol = [CR; LF] -
 Proof. exact raw_reads_no_final_newline. Qed.
 Print Assumptions C12_final_newline.
 
+(** What "do not change any parsed line, section, error kind or built machine" rests on: every consumer of the reader sees only
+    the texts of the line reads.  Two streams of successful reads with the same texts give the same parsed lines, the same
+    grammar items (sections and the error, with its kind and payload) and the same build result. *)
+Theorem C12_same_texts : forall rs1 rs2, texts rs1 = texts rs2 -> all_ok rs1 -> all_ok rs2 ->
+  map classify rs1 = map classify rs2 /\ spec_sections None 0 rs1 = spec_sections None 0 rs2 /\ build_reads rs1 = build_reads rs2.
+Proof. exact same_texts_same_everything. Qed.
+Print Assumptions C12_same_texts.
+
+(** LF versus CRLF, up to the machine: the same lines terminated either way give the same parsed lines, items and build result. *)
+Theorem C12_eol_machine : forall ls, Forall (line_ok [LF]) ls -> Forall (line_ok [CR; LF]) ls ->
+  let a := raw_reads (src_of_bytes (join_lines [LF] ls)) in
+  let b := raw_reads (src_of_bytes (join_lines [CR; LF] ls)) in
+  map classify a = map classify b /\ spec_sections None 0 a = spec_sections None 0 b /\
+  build (src_of_bytes (join_lines [LF] ls)) = build (src_of_bytes (join_lines [CR; LF] ls)).
+Proof. exact eol_invariant. Qed.
+Print Assumptions C12_eol_machine.
+
+(** Final newline or none, up to the machine. *)
+Theorem C12_final_newline_machine : forall eol init last, eol = [LF] \/ eol = [CR; LF] ->
+  Forall (line_ok eol) init -> line_ok eol last -> last <> [] -> utf8_valid last = true ->
+  let a := raw_reads (src_of_bytes (join_lines eol init ++ last)) in
+  let b := raw_reads (src_of_bytes (join_lines eol (init ++ [last]))) in
+  map classify a = map classify b /\ spec_sections None 0 a = spec_sections None 0 b /\
+  build (src_of_bytes (join_lines eol init ++ last)) = build (src_of_bytes (join_lines eol (init ++ [last]))).
+Proof. exact final_newline_invariant. Qed.
+Print Assumptions C12_final_newline_machine.
+
+(** Blank padding after any number of complete sections ([rs1] parses to sections [f1] with no error and ends between
+    sections): the items change only in quoted line numbers, and the build gives the same machine or the same refusal
+    ([forget_b] forgets only the line number inside a blank-line error). *)
+Theorem C12_padding_anywhere : forall rs1 f1 r rest, spec_sections None 0 rs1 = map Ok f1 -> classify r = RBlank ->
+  map forget_ln (spec_sections None 0 (rs1 ++ r :: rest)) = map forget_ln (spec_sections None 0 (rs1 ++ rest)) /\
+  forget_b (build_reads (rs1 ++ r :: rest)) = forget_b (build_reads (rs1 ++ rest)).
+Proof. exact padding_both. Qed.
+Print Assumptions C12_padding_anywhere.
+
 Example C12_eol_example :
   map (fun r => match r with ROk _ t => t | _ => [] end) (raw_reads (src_of_bytes [52; 13; 10; 13; 10; 53; 54; 13; 10]))
   = map (fun r => match r with ROk _ t => t | _ => [] end) (raw_reads (src_of_bytes [52; 10; 10; 53; 54])).
 Proof. vm_compute. reflexivity. Qed.
+
+(** the premises of [C12_eol_machine] are met by a real file, and a machine is built from it *)
+Example C12_machine_nonvacuous :
+  Forall (line_ok [LF]) (file_lines ex_file) /\ Forall (line_ok [CR; LF]) (file_lines ex_file) /\
+  match build (src_of_bytes (join_lines [CR; LF] (file_lines ex_file))) with Val (Ok _) => True | _ => False end.
+Proof.
+  split; [apply plain_lines_ok; [left; reflexivity|vm_compute; reflexivity]|].
+  split; [apply plain_lines_ok; [right; reflexivity|vm_compute; reflexivity]|]. vm_compute. exact I.
+Qed.
